@@ -107,3 +107,102 @@ Proof.
   destruct (nodup_exceeds_honest B C NC) as (l & Il & Nl); [lia|].
   apply filter_In in Il. destruct Il as [I1 I2]. apply in_existsb_eqb in I2. eauto.
 Qed.
+
+(* ---- invariants of every schedule ------------------------------------------------------------------- *)
+Section Net.
+Variables (n t skip : Z) (H : Z -> Z) (toolong : tagT -> Z -> bool) (byz : Z -> bool).
+Notation gstep := (gstep n t skip H toolong byz).
+Notation run := (grun n t skip H toolong byz).
+
+Lemma grun_ind : forall (P : gst -> Prop), P ginit -> (forall g e, P g -> P (gstep g e)) -> forall es, P (run es).
+Proof.
+  intros P P0 PS es. unfold grun.
+  assert (G : forall l g, P g -> P (fold_left gstep l g)).
+  { induction l as [|e r IH]; cbn; auto. }
+  apply G. exact P0.
+Qed.
+
+(* channel isolation of the sender-specific call over whole runs: every value DeliverFrom(i) ever returned at party p while
+   p was on channel c was delivered by Deliver at p for sender i under a tag of channel c *)
+Definition iso_inv (g : gst) : Prop :=
+  (forall p c i v, In (p, c, i, v) (gapi g) -> exists s, In (p, (c, i, s), v) (glog g)) /\
+  (forall p w v c, In (v, c) (fbuf (gp g p) w) -> exists s, In (p, (c, w, s), v) (glog g)).
+
+Lemma iso_update : forall g p st' sent' log',
+  iso_inv g -> (forall x, In x (glog g) -> In x log') ->
+  (forall w v c, In (v, c) (fbuf st' w) -> In (v, c) (fbuf (gp g p) w) \/ exists s, In (p, (c, w, s), v) log') ->
+  iso_inv (Gst (updZ (gp g) p st') sent' log' (gapi g)).
+Proof.
+  intros g p st' sent' log' [I1 I2] Mono F. split; cbn.
+  - intros p0 c i v I. destruct (I1 _ _ _ _ I) as [s Is]. eauto.
+  - intros p0 w v c. unfold updZ. destruct (Z.eqb_spec p0 p).
+    + subst p0. intros I. destruct (F _ _ _ I) as [J|J]; auto. destruct (I2 _ _ _ _ J) as [s Is]. eauto.
+    + intros I. destruct (I2 _ _ _ _ I) as [s Is]. eauto.
+Qed.
+
+Lemma iso_api : forall g p c i v, iso_inv g -> (exists s, In (p, (c, i, s), v) (glog g)) ->
+  iso_inv (Gst (gp g) (gsent g) (glog g) (gapi g ++ [(p, c, i, v)])).
+Proof.
+  intros g p c i v [I1 I2] E. split; cbn; auto.
+  intros p0 c0 i0 v0 I. apply in_app_or in I. destruct I as [I|[I|[]]]; auto. inversion I; subst. exact E.
+Qed.
+
+Lemma iso_step : forall g e, iso_inv g -> iso_inv (gstep g e).
+Proof.
+  intros g e Inv. destruct e; cbn [RbcModel.gstep].
+  - (* EBcast *) destruct (honest n byz p); auto. unfold broadcast.
+    apply iso_update; auto; cbn; auto.
+  - (* ERecv *) destruct (honest n byz p && can_recv n byz g p l m); auto. unfold apply_out.
+    apply iso_update; auto; [intros x I; apply in_or_app; auto|].
+    intros w v c I. left. pose proof (deliver_spec n t skip H toolong p (gp g p) (Some (l, m))) as [(_&_&_&_&_&F) _].
+    rewrite F. exact I.
+  - (* EIdle *) destruct (honest n byz p); auto. unfold apply_out.
+    apply iso_update; auto; [intros x I; apply in_or_app; auto|].
+    intros w v c I. left. pose proof (deliver_spec n t skip H toolong p (gp g p) None) as [(_&_&_&_&_&F) _].
+    rewrite F. exact I.
+  - (* EFromRecv *) destruct (honest n byz p && can_recv n byz g p l m); auto. unfold apply_from.
+    set (ov := deliver_from n t skip H toolong p (gp g p) i (Some (l, m))).
+    assert (A : iso_inv (apply_out g p (fst ov))).
+    { unfold apply_out. apply iso_update; auto; [intros x I; apply in_or_app; auto|].
+      intros w v c I. apply deliver_from_buffers in I. destruct I as [I|(-> & s & E)]; auto.
+      right. exists s. apply in_or_app. right. fold ov in E. rewrite E. cbn. auto. }
+    destruct (snd ov) as [v|] eqn:R; auto.
+    apply (iso_api (apply_out g p (fst ov))); auto.
+    apply deliver_from_isolation in R. destruct Inv as [_ I2]. destruct (I2 _ _ _ _ R) as [s Is].
+    exists s. cbn. apply in_or_app. auto.
+  - (* EFromIdle *) destruct (honest n byz p); auto. unfold apply_from.
+    set (ov := deliver_from n t skip H toolong p (gp g p) i None).
+    assert (A : iso_inv (apply_out g p (fst ov))).
+    { unfold apply_out. apply iso_update; auto; [intros x I; apply in_or_app; auto|].
+      intros w v c I. apply deliver_from_buffers in I. destruct I as [I|(-> & s & E)]; auto.
+      right. exists s. apply in_or_app. right. fold ov in E. rewrite E. cbn. auto. }
+    destruct (snd ov) as [v|] eqn:R; auto.
+    apply (iso_api (apply_out g p (fst ov))); auto.
+    apply deliver_from_isolation in R. destruct Inv as [_ I2]. destruct (I2 _ _ _ _ R) as [s Is].
+    exists s. cbn. apply in_or_app. auto.
+  - (* ESetID *) destruct (honest n byz p); auto. unfold set_party. apply iso_update; auto;
+    intros w v c I; left; destruct (switch_frame (gp g p) id f) as [(_&_&_&F&_) _]; cbv zeta in F; rewrite F in I; exact I.
+  - (* ERecoverID *) destruct (honest n byz p); auto. unfold set_party. apply iso_update; auto;
+    intros w v c I; left; destruct (switch_frame (gp g p) id f) as [_ [(_&_&_&F&_) _]]; cbv zeta in F; rewrite F in I; exact I.
+  - (* EUnsetID *) destruct (honest n byz p); auto. unfold set_party. apply iso_update; auto;
+    intros w v c I; left; destruct (switch_frame (gp g p) 0 f) as [_ [_ (_&_&_&F&_)]]; cbv zeta in F; rewrite F in I; exact I.
+Qed.
+
+Theorem deliverfrom_isolation_run : forall es p c i v,
+  In (p, c, i, v) (gapi (run es)) -> exists s, In (p, (c, i, s), v) (glog (run es)).
+Proof.
+  intros es. assert (I : iso_inv (run es)); [|exact (proj1 I)].
+  apply grun_ind.
+  - split; cbn; intros ? ? ? ? [].
+  - apply iso_step.
+Qed.
+
+End Net.
+
+(* Plan of the unfinished agreement proof (statements intended, not proved):
+   I-echo-count / I-ready-count: ed/rd of an honest party = length of a duplicate-free list of parties whose filter is set and
+     that are Byzantine or have the message in gsent;  I-echo-once: an honest party echoes one digest per tag (FSend filter);
+   I-ready-src: an honest ready(tag,d) implies an echo quorum for d at an honest party;  I-ready-same: by
+     quorum_intersect_honest + I-echo-once all honest readys of a tag carry one digest;  I-dbar: dbar tag = Some d implies
+     rd tag d >= 2t+1, hence (nodup_exceeds_honest) an honest ready for d, hence dbar agrees between honest parties;
+   I-local: a logged delivery (p,tag,v) without use of the l-retrieve path has dbar tag = Some (H v).  *)
